@@ -235,7 +235,7 @@ func (o COp) String() string {
 			return fmt.Sprintf("%sroute(k%d,tag=%d)", o.Kind, o.Key, o.Tag)
 		}
 		return fmt.Sprintf("%s(k%d,tag=%d)", o.Kind, o.Key, o.Tag)
-	case "delete", "has", "route", "iterroutes":
+	case "delete", "has", "route", "iterroutes", "truncabort":
 		return fmt.Sprintf("%s(k%d)", o.Kind, o.Key)
 	case "serve", "lookup", "reverse":
 		return fmt.Sprintf("%s(p%d)", o.Kind, o.Probe)
@@ -617,6 +617,21 @@ func (cw *concWorld) runProgram(s *sim.Sched, client int, prog []COp, log *taskL
 			}
 			s.Yield(sim.PtUser)
 			continue
+		case "truncabort":
+			// (C06, converse family) a write transaction that truncates one method - or all - and is then aborted: no
+			// effect on the routes, but the truncation walks the tree it is about to drop
+			txn := cw.w.R.Txn(true)
+			var terr error
+			if op.Key < 0 {
+				terr = txn.Truncate()
+			} else {
+				terr = txn.Truncate(cw.keys[op.Key].Method)
+			}
+			if terr != nil {
+				rec.Out.Bad = "Truncate: " + terr.Error()
+			}
+			s.Yield(sim.PtTxnFn)
+			txn.Abort()
 		case "view":
 			rec.Out = cw.execView(s, op)
 		case "txn":
